@@ -664,6 +664,12 @@ func (c *Ctx) stdNonNegative() {
 	// difference such as E[x^2] - E[x]^2 is non-negative only in exact arithmetic, in floating
 	// point it cancels to a small negative number on a flat window and the square root is NaN
 	info := fi.Pkg.TypesInfo
+	nonNegDecls = func(fn *types.Func) *ast.FuncDecl {
+		if d := c.P.Decls[fn.Origin()]; d != nil && d.Pkg == fi.Pkg {
+			return d.Decl
+		}
+		return nil
+	}
 	nSqrt := 0
 	ast.Inspect(fi.Decl.Body, func(n ast.Node) bool {
 		call, isCall := n.(*ast.CallExpr)
@@ -681,6 +687,9 @@ func (c *Ctx) stdNonNegative() {
 	c.Run.Count("std_radicands", nSqrt)
 	c.Run.Floor("std_radicands", 1)
 }
+
+// nonNegDecls resolves a function of the package to its declaration (set by the caller).
+var nonNegDecls func(fn *types.Func) *ast.FuncDecl
 
 // nonNegative: "" when e is non-negative by construction - a non-negative constant, an even
 // power or a product of an expression with itself, an absolute value, a sum, product or quotient
@@ -711,6 +720,14 @@ func nonNegative(info *types.Info, body *ast.BlockStmt, e ast.Expr, depth int) s
 					if v, exact := constant.Int64Val(constant.ToInt(tv.Value)); exact && v%2 == 0 {
 						return ""
 					}
+				}
+			}
+		}
+		// an unexported helper of the package made of one returned expression
+		if fn := callee(info, x); fn != nil && !fn.Exported() && nonNegDecls != nil {
+			if d := nonNegDecls(fn); d != nil {
+				if in := returnedExpr(info, d, x.Args); in != nil {
+					return nonNegative(info, d.Body, in, depth+1)
 				}
 			}
 		}
